@@ -440,6 +440,9 @@ impl<'a> UserModel<'a> {
                     worksheet.color = old_data.color.clone();
                     worksheet.merge_cells = old_data.merge_cells.clone();
                     worksheet.shared_formulas = old_data.shared_formulas.clone();
+                    worksheet.comments = old_data.comments.clone();
+                    worksheet.conditional_formatting = old_data.conditional_formatting.clone();
+                    worksheet.links = old_data.links.clone();
                     self.model.reset_parsed_structures();
 
                     self.set_selected_sheet(sheet_index)?;
